@@ -255,7 +255,7 @@ def main():
             continue
         n0, n1 = sc.count[0], sc.count[1]
         # a single preemption at every call point of the first request (the second then runs to its end)
-        step = 1 if T != "quick" else max(1, n0 // 25)
+        step = max(1, n0 // 300) if T != "quick" else max(1, n0 // 25)
         for k0 in range(1, n0 + 1, step):
             res, sc2 = run_threads(app, urls, lambda tid, k, alive, k0=k0: 1 if (tid == 0 and k == k0) else tid, "call")
             stats["single_preemption"] += 1
@@ -283,7 +283,7 @@ def main():
         if not check(urls, res, sc, "no preemption (line counting)"):
             continue
         n0 = sc.count[0]
-        step = 1 if T != "quick" else max(1, n0 // 120)
+        step = max(1, n0 // 1500) if T != "quick" else max(1, n0 // 120)
         for k0 in range(1, n0 + 1, step):
             res, sc2 = run_threads(app, urls, lambda tid, k, alive, k0=k0: 1 if (tid == 0 and k == k0) else tid, "line")
             stats["single_preemption"] += 1
